@@ -684,7 +684,12 @@ func digestsCmd(args []string) int {
 	n := fs.Int("n", 64, "")
 	seed := fs.Uint64("seed", 1, "")
 	traceIdx := fs.Int("trace", -1, "print the trace of this run index")
+	dirIdx := fs.Int("directed", -1, "run only this directed case (negative: counted from the end) and print its trace")
+	forcedStr := fs.String("forced", "", "comma-separated forced prefix: run it once and print its trace")
+	dirSet := false
+	fs.Visit(func(f *flag.Flag) { dirSet = dirSet || f.Name == "directed" })
 	fs.Parse(args)
+	fs.Visit(func(f *flag.Flag) { dirSet = dirSet || f.Name == "directed" })
 	p := props.Registry[*propID]
 	if p == nil {
 		return 2
@@ -693,6 +698,45 @@ func digestsCmd(args []string) int {
 	var directed [][]uint64
 	if p.Directed != nil {
 		directed = p.Directed(*tier)
+	}
+	if *forcedStr != "" {
+		var forced []uint64
+		for _, f := range strings.Split(*forcedStr, ",") {
+			v, err := strconv.ParseUint(strings.TrimSpace(f), 10, 64)
+			if err != nil {
+				return 2
+			}
+			forced = append(forced, v)
+		}
+		r := execRun(p, core.NewGenTape(runSeed(*seed, p.ID, 0), forced), true)
+		for _, l := range r.Trace() {
+			fmt.Println("   ", l)
+		}
+		v := "-"
+		if r.Viol != nil {
+			v = r.Viol.Signature
+		}
+		fmt.Printf("forced=%v %s %s %s\n", forced, r.Digest(), v, r.Harness)
+		return 0
+	}
+	if dirSet {
+		k := *dirIdx
+		if k < 0 {
+			k += len(directed)
+		}
+		if k < 0 || k >= len(directed) {
+			return 2
+		}
+		r := execRun(p, core.NewGenTape(runSeed(*seed, p.ID, k), directed[k]), true)
+		for _, l := range r.Trace() {
+			fmt.Println("   ", l)
+		}
+		v := "-"
+		if r.Viol != nil {
+			v = r.Viol.Signature
+		}
+		fmt.Printf("directed %d/%d forced=%v %s %s %s\n", k, len(directed), directed[k], r.Digest(), v, r.Harness)
+		return 0
 	}
 	for j := 0; j < *n; j++ {
 		var forced []uint64
